@@ -70,6 +70,7 @@ def _child_main(world, wfd):
                 result['events'] = fs.events
                 result['files'] = fs.snapshot()
                 result['dirs'] = sorted(fs.dirs)
+                result['mtimes'] = fs.mtime_snapshot()
                 result['fired'] = fs.fired_log
                 result['gaps'] = fs.gaps + gaps
                 result['set_log'] = W.SimSetState.log
